@@ -36,3 +36,7 @@ impl KempstonJoy {
         self.state
     }
 }
+
+#[cfg(kani)]
+#[path = "/verif/hooks/core/kempston_joy.rs"]
+mod verif_hooks;
